@@ -68,21 +68,23 @@ type pfxScn struct {
 }
 
 func duidFor(c int, r *rand.Rand) dhcpv6.DUID {
-	mac := net.HardwareAddr{0x02, 0, 0, byte(r.Intn(256)), byte(r.Intn(256)), byte(c)}
+	// the client number goes into the identifier in full (two bytes): distinct clients never share a DUID
+	hi, lo := byte(c>>8), byte(c)
+	mac := net.HardwareAddr{0x02, 0, byte(r.Intn(256)), byte(r.Intn(256)), hi, lo}
 	switch (c + r.Intn(5)) % 5 {
 	case 0:
 		return &dhcpv6.DUIDLL{HWType: iana.HWTypeEthernet, LinkLayerAddr: mac}
 	case 1:
 		return &dhcpv6.DUIDLLT{HWType: iana.HWTypeEthernet, Time: uint32(r.Intn(1 << 30)), LinkLayerAddr: mac}
 	case 2:
-		return &dhcpv6.DUIDEN{EnterpriseNumber: 32473, EnterpriseIdentifier: []byte{byte(c), 0, 0xff, byte(r.Intn(256))}}
+		return &dhcpv6.DUIDEN{EnterpriseNumber: 32473, EnterpriseIdentifier: []byte{hi, lo, 0xff, byte(r.Intn(256))}}
 	case 3:
 		var u [16]byte
 		r.Read(u[:])
-		u[0] = byte(c)
+		u[0], u[1] = hi, lo
 		return &dhcpv6.DUIDUUID{UUID: u}
 	}
-	return &dhcpv6.DUIDOpaque{Type: 4242, Data: []byte{byte(c), 0, 0, 1}}
+	return &dhcpv6.DUIDOpaque{Type: 4242, Data: []byte{hi, lo, 0, 1}}
 }
 
 func newPfxScn(t *Trace, pg pfxGeom, r *rand.Rand) (*pfxScn, error) {
